@@ -550,10 +550,19 @@ def scan_byte_fates(f, body, oc, head, byte_rx):
     fate = {}
     for v in range(256):
         cur, steps = start[0], 0
+        env = {}             # booleans stored on the way (`matches!(..)`, `let ok = ..;`)
         while True:
             steps += 1
             if steps > 200:
                 return None, ["walk does not terminate for byte %d" % v]
+            if cur in comp and cur != head.bb:
+                for st in body.blocks[cur]["stmts"]:
+                    if st["s"] == "assign" and not st["pl"]["p"]:
+                        val = strip_deep(sym.rvalue(st["rv"])) if st["rv"]["r"] == "use" and "k" in st["rv"]["op"] else None
+                        if val is not None and val[0] == "const" and isinstance(val[1], (bool, int)):
+                            env[st["pl"]["l"]] = bool(val[1])
+                        else:
+                            env.pop(st["pl"]["l"], None)
             if cur == head.bb:
                 fate[v] = "continue"
                 break
@@ -570,7 +579,8 @@ def scan_byte_fates(f, body, oc, head, byte_rx):
                 continue
             d = sym.operand(t["discr"])
             if t.get("dty") == "bool":
-                tv = truth(d, v)
+                d0 = strip(d)
+                tv = env.get(d0[2]) if d0[0] == "var" else truth(d, v)
                 if tv is None:
                     return None, ["bb%d: not a test of the scanned byte against constants: %s" % (cur, render(strip_deep(d))[:160])]
                 fe, te = switch_bool_edges(body, cur)
